@@ -80,6 +80,65 @@ def collect_refs(d, out):
             collect_refs(v, out)
 
 
+def plugin_chain_case(rng, rec, fam):
+    """every plugin of the chain is consulted; one that raises NotImplementedError ('not my instance') is skipped, the
+    others still apply, in any order of registration."""
+    from jsonschema import Draft202012Validator
+    from mashumaro.jsonschema import DRAFT_2020_12, OPEN_API_3_1, JSONSchemaBuilder, build_json_schema
+    fam.exec_src("from mashumaro.jsonschema.plugins import BasePlugin, DocstringDescriptionPlugin\n"
+                 "from mashumaro.jsonschema.models import JSONSchema, JSONSchemaInstanceType\n"
+                 "class ThirdParty:\n    pass\n"
+                 "class Refuser(BasePlugin):\n    def get_schema(self, instance, ctx, schema=None):\n        raise NotImplementedError\n"
+                 "class Quiet(BasePlugin):\n    pass\n"
+                 "class ThirdPartyPlugin(BasePlugin):\n    def get_schema(self, instance, ctx, schema=None):\n"
+                 "        if instance.type is ThirdParty:\n            return JSONSchema(type=JSONSchemaInstanceType.STRING, pattern='^tp:')\n"
+                 "        raise NotImplementedError\n"
+                 "class Titler(BasePlugin):\n    def get_schema(self, instance, ctx, schema=None):\n"
+                 "        if schema is not None and instance.type is int:\n            schema.title = 'an int'\n        return None\n"
+                 "@dataclass\nclass WithTP:\n    'the documented class'\n    x: ThirdParty\n    n: int = 0\n    xs: List[ThirdParty] = field(default_factory=list)\n")
+    m = fam.module
+    pool = [("refuser", m.Refuser), ("quiet", m.Quiet), ("third", m.ThirdPartyPlugin), ("doc", m.DocstringDescriptionPlugin), ("titler", m.Titler), ("refuser", m.Refuser)]
+    for _ in range(4):
+        rec.evaluation()
+        chosen = rng.sample(pool, rng.randint(2, len(pool)))
+        if not any(n == "third" for n, _ in chosen):
+            chosen.insert(rng.randrange(len(chosen) + 1), ("third", m.ThirdPartyPlugin))
+        names = [n for n, _ in chosen]
+        plugins = [c() for _, c in chosen]
+        det = {"plugins": names, "source": "".join(fam.sources[2:])}
+        facts = {"kind": "plugins"}
+        try:
+            via = rng.choice(["function", "builder"])
+            if via == "function":
+                sd = build_json_schema(m.WithTP, plugins=plugins, all_refs=False).to_dict()
+            else:
+                sd = JSONSchemaBuilder(DRAFT_2020_12, all_refs=False, plugins=plugins).build(m.WithTP).to_dict()
+        except Exception as e:
+            rec.violation(f"plugins:build:{type(e).__name__}", dict(det, error=f"{type(e).__name__}: {e}"[:300]), dict(facts, exc=type(e).__name__))
+            continue
+        problems = []
+        px = (sd.get("properties") or {}).get("x") or {}
+        if px.get("type") != "string" or px.get("pattern") != "^tp:":
+            problems.append(f"x described as {px!r}")
+        items = ((sd.get("properties") or {}).get("xs") or {}).get("items") or {}
+        if items.get("pattern") != "^tp:":
+            problems.append(f"xs items described as {items!r}")
+        if "doc" in names and sd.get("description") != "the documented class":
+            problems.append(f"description {sd.get('description')!r}")
+        if "titler" in names and ((sd.get("properties") or {}).get("n") or {}).get("title") != "an int":
+            problems.append(f"n described as {(sd.get('properties') or {}).get('n')!r}")
+        try:
+            Draft202012Validator.check_schema(sd)
+        except Exception as e:
+            problems.append("metaschema: " + str(e)[:100])
+        if problems:
+            rec.violation("plugins:a-plugin-of-the-chain-was-not-applied", dict(det, problems=problems, schema=common.short(sd, 500)), facts)
+        else:
+            rec.count("schemas_ok")
+            rec.count("plugin_chains_ok")
+            rec.nontrivial(("plugins", tuple(names), via))
+
+
 def run_case(seed, tier, rec, st):
     from jsonschema import Draft202012Validator
     from mashumaro.jsonschema import DRAFT_2020_12, OPEN_API_3_1, JSONSchemaBuilder, build_json_schema
@@ -145,7 +204,29 @@ def run_case(seed, tier, rec, st):
                          "    f: GS[str] = field(default_factory=lambda: GS('x'))\n"
                          "    class Config(BaseConfig):\n        serialization_strategy = {str: {'serialize': norm_str}, datetime.datetime: {'serialize': norm_dt}}\n")
             types_ = [("raw", "SR"), ("raw", "GS[str]"), ("raw", "GS[datetime.datetime]")]
-        elif kind < 0.3:
+        elif kind < 0.29:
+            return plugin_chain_case(rng, rec, fam)
+        elif kind < 0.33:
+            # field-level overrides on collections whose ELEMENTS are composite (Optional / tuple / NamedTuple members): the
+            # option is the field's, the element positions below it are described by the built-in rules
+            facts = {"kind": "field-override-on-composite-elements"}
+            fam.exec_src("class Pnt(NamedTuple):\n    x: int\n    y: int\n"
+                         "def ser_dts(v) -> List[Optional[str]]:\n    return [None if x is None else x.isoformat() for x in v]\n"
+                         "def ser_pairs(v) -> Dict[str, Tuple[str, str]]:\n    return {k: (a.isoformat(), b.isoformat()) for k, (a, b) in v.items()}\n"
+                         "class DtList(SerializationStrategy):\n    def serialize(self, v) -> List[Optional[datetime.datetime]]:\n        return list(v)\n    def deserialize(self, v):\n        return v\n"
+                         "class PairMap(SerializationStrategy, use_annotations=True):\n    def serialize(self, v) -> Dict[str, Tuple[datetime.date, datetime.date]]:\n        return dict(v)\n    def deserialize(self, v: Dict[str, Tuple[datetime.date, datetime.date]]):\n        return v\n")
+            lines = ["@dataclass", "class CompEl:"]
+            pool = ["    a: List[Optional[datetime.datetime]] = field(default_factory=list, metadata=field_options(serialize=ser_dts))",
+                    "    b: Dict[str, Tuple[datetime.date, datetime.date]] = field(default_factory=dict, metadata=field_options(serialize=ser_pairs))",
+                    "    c: List[Optional[datetime.datetime]] = field(default_factory=list, metadata=field_options(serialization_strategy=DtList()))",
+                    "    d: Dict[str, Tuple[datetime.date, datetime.date]] = field(default_factory=dict, metadata=field_options(serialization_strategy=PairMap()))",
+                    "    e: List[Optional[Pnt]] = field(default_factory=list, metadata=field_options(serialize='as_dict'))",
+                    "    f: Dict[str, Tuple[Pnt, int]] = field(default_factory=dict, metadata=field_options(serialize='as_dict'))",
+                    "    g: Tuple[List[Optional[datetime.date]], int] = field(default=((), 0), metadata=field_options(serialization_strategy=pass_through))"]
+            lines += rng.sample(pool, rng.randint(2, 5))
+            fam.exec_src("\n".join(lines) + "\n")
+            types_ = [("raw", "CompEl"), ("raw", "List[CompEl]")]
+        elif kind < 0.37:
             ann = rng.choice(ANNOTATIONS)
             facts = {"kind": "annotated", "annotation": ann[1], "unhashable_metadata": ("{" in ann[1] or "[" in ann[1])}
             dflt = {"int": "2", "float": "1.5", "str": "'abc'", "List[int]": None, "Dict[str, int]": None, "List[str]": None}[ann[0]]
@@ -171,6 +252,14 @@ def run_case(seed, tier, rec, st):
             # defaults, which are rendered by the serializer
             facts["union_copy_shortcut"] = common.union_copy_fact(fam, t)
         ns = fam.module.__dict__
+        if types_ and types_[0][0] != "raw" and rng.random() < 0.5:
+            # history: the schemas of the ANCESTORS were built first
+            for A in common.ancestor_classes(fam, types_[0]):
+                try:
+                    build_json_schema(A, all_refs=rng.random() < 0.5)
+                    rec.count("history_ancestor_schema_built_first")
+                except Exception:
+                    pass
         for t in types_:
             tsrc = t[1] if t[0] == "raw" else tast.render(t)
             T = eval(tsrc, ns) if t[0] == "raw" else common.eval_type(fam, t)
